@@ -1825,6 +1825,10 @@ class _TotalJacInfo(object):
 
             finally:
                 model._tot_jac = None
+                if model._jacobian is self:
+                    # don't leave this object behind as the model's jacobian: a later linear
+                    # solve inside run_model (e.g. Newton at the top level) would try to apply it
+                    model._jacobian = None
 
             totals = self.J_dict
             if debug_print:
